@@ -2,7 +2,8 @@
 
 H1_STUB = {
     "real": ["server/commitlog (instrumented mechanically: locks, channels, selects, goroutines, tickers are scheduling points)",
-             "file system and mmap of the sandbox kernel (process-crash model)", "natefinch/atomic", "gommap"],
+             "file system and mmap of the sandbox kernel (process-crash model)", "gommap",
+             "natefinch/atomic v1.0.1 WriteFile: the original statements with crash points between temp-file creation, write and rename (fakes/atomicfile)"],
     "stub": ["goroutine scheduling (simrt, seeded)", "clock and timers (testing/synctest fake clock)"],
 }
 
@@ -12,7 +13,7 @@ ENGINES = {
         "harness": "commitlog",
         "instrument": ["server/commitlog"],
         "fs": ["server/commitlog"],
-        "replace": {},
+        "replace": {"github.com/natefinch/atomic": "atomicfile"},
         "real_vs_stub": H1_STUB,
         "kind": "deterministic simulation of the real commitlog package (instrumented) on real files in one synctest bubble",
     },
@@ -37,7 +38,7 @@ ENGINES["h3"] = {
     "derive_startsim": True,
     "extra_harness": [("server/commitlog", "commitlog")],
     "fs": ["server/commitlog"],
-    "replace": {"github.com/nats-io/nats.go": "natsgo", "github.com/hashicorp/raft": "raft", "github.com/liftbridge-io/nats-on-a-log": "natslog", "github.com/nats-io/nuid": "nuid"},
+    "replace": {"github.com/nats-io/nats.go": "natsgo", "github.com/hashicorp/raft": "raft", "github.com/liftbridge-io/nats-on-a-log": "natslog", "github.com/nats-io/nuid": "nuid", "github.com/natefinch/atomic": "atomicfile"},
     "real_vs_stub": H3_STUB,
     "kind": "deterministic simulation of 1-4 real liftbridge servers over a simulated NATS bus and a Raft stub in one synctest bubble",
 }
